@@ -14,8 +14,8 @@ struct Box {
   std::vector<Val> model;
 };
 
-enum Spare { SP_NATURAL = 0, SP_GROW, SP_EXACT, SP_MORE };
-inline const char *sparename(int s) { static const char *n[] = {"natural", "heap-full", "heap-exact-room", "heap-more-room"}; return n[s]; }
+enum Spare { SP_NATURAL = 0, SP_GROW, SP_EXACT, SP_MORE, SP_PARTIAL };
+inline const char *sparename(int s) { static const char *n[] = {"natural", "heap-full", "heap-exact-room", "heap-more-room", "heap-some-room-but-not-enough"}; return n[s]; }
 
 struct GridBase : EngineBase {
   unsigned paycnt = 0;
